@@ -97,17 +97,40 @@ def run(ctx):
                   "returns %s" % A.show(e), f.loc(b))
 
     # ---------------------------------------------------------------- C18.3
-    g = prog.fn(REC + "get_record::{closure#0}")
-    alts = A.true_alternatives(g)
-    ctx.floor("C18.3", "true-returning alternatives of get_record's predicate", len(alts), 1)
-    for b, facts in alts:
-        ok_t = A.has_fact(facts, A.cmp_fact({"Eq"}, Call("RecordTypeWithData::rtype", PathEnds("rtype_with_data")), Path("^rtype", "env.0")))
-        ok_n = A.has_fact(facts, A.cmp_fact({"Eq"}, PathEnds("name"), Path("^target", "^*target", "env.1")))
-        ctx.check(ok_t and ok_n, "C18.3", "get_record:predicate", "rr.rtype() == rtype && rr.name == target",
-                  "get_record's predicate can be true without both the type and the name matching", g.loc(b))
+    # get_record in normal form (the `find(|rr| ..)` is a loop after normalisation; a hand-written loop is the same shape):
+    # Some(rr) is returned only for an element of the list whose type and name both matched
     gr = prog.fn(REC + "get_record")
-    finds = A.call_blocks(gr, A.name_endswith("Iterator::find", "Iterator>::find"))
-    ctx.floor("C18.3", "find() in get_record", len(finds), 1, exact=True)
+    grr = A.Resolver(gr)
+    grc = A.Conds(gr, grr)
+    somes = [(b, A.peel(e)) for b, e in A.return_exprs(gr, grr) if A.peel(e)[0] == "agg" and A.peel(e)[2] == "Some"]
+    ctx.floor("C18.3", "Some(record) results of get_record", len(somes), 1)
+    for b, e in somes:
+        x = dict(e[3])["0"]
+        src = A.iter_elem_source(x)
+        from_list = src is not None and A.peel(src) == ("param", 1)
+        elem = A.peel(x)
+        def same_elem(y):
+            return A.same_value(A.peel(y), elem) or A.strip_refs(A.peel(y)) == A.strip_refs(elem)
+        def type_eq(fc):
+            if fc[0] != "cmp" or fc[1] != "Eq":
+                return False
+            for a_, b_ in ((fc[2], fc[3]), (fc[3], fc[2])):
+                pa = A.peel(a_)
+                if pa[0] == "call" and pa[1].endswith("RecordTypeWithData::rtype") and A.last_field(pa[2][0]) == "rtype_with_data" and same_elem(A.peel(pa[2][0])[1]) and A.peel(b_) == ("param", 3):
+                    return True
+            return False
+        def name_eq(fc):
+            if fc[0] != "cmp" or fc[1] != "Eq":
+                return False
+            for a_, b_ in ((fc[2], fc[3]), (fc[3], fc[2])):
+                pa = A.peel(a_)
+                if pa[0] == "field" and pa[2] == "name" and same_elem(pa[1]) and A.peel(b_) == ("param", 2):
+                    return True
+            return False
+        ok_t, _ = grc.guarded(b, type_eq)
+        ok_n, _ = grc.guarded(b, name_eq)
+        ctx.check(from_list and ok_t and ok_n, "C18.3", "get_record:predicate", "Some(rr) only for an rr of the list with rr.rtype() == rtype && rr.name == target",
+                  "get_record can return a record without both the type and the name matching (from the list: %s, type test: %s, name test: %s)" % (from_list, ok_t, ok_n), gr.loc(b))
     gi = prog.fn(REC + "get_ip")
     gir = A.Resolver(gi)
     gic = A.Conds(gi, gir)
